@@ -132,6 +132,17 @@ func (ef *Effects) Of(f *ssa.Function) []Effect {
 							}
 							if idx >= 0 && idx < len(args) {
 								add(tb.Of(args[idx]), ce.Kind, in, via)
+								// a callee that writes the bytes of a string parameter (through an unsafe view) writes
+								// whatever string the argument shares its memory with
+								if b, isB := args[idx].Type().Underlying().(*types.Basic); isB && b.Info()&types.IsString != 0 {
+									for _, r := range stringRoots(tb.Of(args[idx]), 0) {
+										k := r.String() + "|" + ce.Kind + "|" + fmt.Sprint(in.Pos()) + "|" + via
+										if !seen[k] && interestingRoot(r) {
+											seen[k] = true
+											out = append(out, Effect{Root: r, Kind: ce.Kind, In: in, Via: via})
+										}
+									}
+								}
 							}
 						case "freevar":
 							idx := paramIdxOfTerm(ce.Root)
@@ -242,4 +253,46 @@ func extReadsArg(name string, i int) bool {
 		return i == 0 // Sum(b) appends the digest to b: it writes b's spare capacity, not the hash
 	}
 	return false
+}
+
+// stringRoots: the parameters and package variables whose string memory the string term t may share: substrings
+// (slices, the strings.Trim* family, which return a part of their argument) are followed, concatenations and
+// conversions from bytes are fresh memory.
+func stringRoots(t *Term, depth int) []*Term {
+	if t == nil || depth > 12 {
+		return nil
+	}
+	switch t.Op {
+	case "param", "gval", "global":
+		return []*Term{t}
+	case "slice", "field", "index", "deref":
+		return stringRoots(t.Args[0], depth+1)
+	case "phi", "ite":
+		var out []*Term
+		args := t.Args
+		if t.Op == "ite" {
+			args = t.Args[1:]
+		}
+		for _, a := range args {
+			out = append(out, stringRoots(a, depth+1)...)
+		}
+		return out
+	case "call":
+		if strings.HasPrefix(t.Sym, "strings.Trim") || t.Sym == "strings.ToUpper" || t.Sym == "strings.ToLower" || t.Sym == "strings.Map" || t.Sym == "strings.Clone" {
+			if t.Sym == "strings.Clone" {
+				return nil
+			}
+			if len(t.Args) > 0 {
+				// (ToUpper / ToLower / Map return their argument itself when nothing changes)
+				k := 0
+				if t.Sym == "strings.Map" {
+					k = 1
+				}
+				if k < len(t.Args) {
+					return stringRoots(t.Args[k], depth+1)
+				}
+			}
+		}
+	}
+	return nil
 }
